@@ -52,12 +52,55 @@ def run(ck: Check) -> None:
     t5(ck)
     successor_protocol(ck, "T6")
     t8(ck, gm)
+    source_variables(ck, "T6")
     ck.floor("T1", 8)
     ck.floor("T2", 14)
     ck.floor("T3", 5)
     ck.floor("T5", 4)
-    ck.floor("T6", 4)
+    ck.floor("T6", 5)
     ck.floor("T8", 1)
+
+
+def source_variables(ck: Check, rule: str) -> None:
+    """The source variables that every stable motif of the root must fix: *all* variables of the net (also those without
+    any transition, e.g. an input that regulates nothing) minus the variables that some transition changes."""
+    from .symstr import SymEval
+    fm = ck.prog.fm("biobalm.petri_net_translation", "extract_source_variables")
+    f = fm.f
+    net = f.params()[0]
+    se = SymEval(fm)
+    probs = []
+    rets = [r for r in own_walk(f.node) if isinstance(r, ast.Return) and r.value is not None]
+    if not rets:
+        probs.append("nothing is returned")
+    for r in rets:
+        base = se.val(r.value, fm.cfgn(r))
+        VN = f"extract_variable_names({net})"
+        CH = f"{net}.nodes(data='change')"
+        # ... also written as a set difference with the `change` attributes of all nodes
+        if base == f"({VN} Sub map(elem({CH}).1,{CH}))":
+            base = VN
+        if base != VN:
+            probs.append(f"the candidates are `{base[:90]}`, not all variables of the net: a variable that no transition reads or "
+                         f"changes (an input that regulates nothing) is no longer a source, and the root's successors do not "
+                         f"fix it")
+    # what is taken away: only variables named by the `change` attribute of a transition
+    removed = []
+    for c in own_walk(f.node):
+        if isinstance(c, ast.Call) and isinstance(c.func, ast.Attribute) and c.func.attr in ("remove", "discard") and c.args:
+            removed.append((c, c.args[0]))
+    for c, x in removed:
+        tok = se.val(x, fm.cfgn(c))
+        if "nodes(data='change')" not in tok.replace('"', "'") and "change" not in tok:
+            probs.append(f"line {c.lineno}: `{text(x)}` is removed from the sources although it is not the variable changed by a transition")
+        lps = fm.cfg.enclosing_loops(fm.cfgn(c))
+        if not lps or any(isinstance(z, (ast.Break, ast.Return)) for z in ast.walk(lps[0])):
+            probs.append("not every transition is examined")
+    if not removed and not any("Sub" in se.val(r.value, fm.cfgn(r)) for r in rets):
+        if not any(isinstance(x, (ast.SetComp, ast.ListComp, ast.BinOp)) for r in rets for x in ast.walk(fm.deref(r.value, fm.cfgn(r)))):
+            probs.append("changed variables are not excluded")
+    ck.ob(rule, fm, f.node, not probs, "; ".join(sorted(set(probs))) if probs else
+          "sources = all variables of the net minus those changed by a transition", key="source variables of the net")
 
 
 # ------------------------------------------------------------------------------------------ T1
